@@ -38,6 +38,11 @@ CHECKS = {
     ref="DESIGN.md §3 C06",
     note="Termination is decided up to a stream-operation budget on the outer stream plus 10 CPU-seconds per input of a few dozen bytes. Excluded by documentation: Compressed/Pickled/Numpy/Timestamp/Encrypted, data-dependent Restreamed widths, zero-width repetition. A read(n>=2) returning n-1 bytes is the short-read fault; zero bytes is ordinary EOF.",
     technique="fuzzing with structured generators (Hypothesis) + systematic fault injection over every stream-operation index; oracle = exception class / fault-free differential"),
+ "C05": dict(
+    text="Enumeration of every 'integer or context lambda' constructor parameter (28 sites) x 7 spellings of the reference (this.k, this['k'], this._params.k, attribute/item lambdas, arithmetic) x 55 wrappers (incl. constructors that call sizeof at construction time) x nested wrappers x contexts with the key supplied/withheld/zero: sizeof must answer an int >= 0 or SizeofError. Generated spec trees with keyword parameters (lengths, counts, moduli, bit widths, switch keys, conditions from _params) x contexts supplying all/some/none of the keys x generated values: whenever sizeof answers n, build_stream at offsets 0 and 3 advances by n and parse_stream of built+random trailing bytes advances by n.",
+    ref="DESIGN.md §3 C05",
+    note="Exempt by documentation: negative lengths / modulus < 2, parse-advance of ProcessXor/RotateLeft/NullStripped (read to end of stream). Sibling references under sizeof are expected to give SizeofError.",
+    technique="bounded-exhaustive enumeration of parameter sites + Hypothesis generated specs; oracle = exception class and measured stream advance"),
 }
 
 NOT_APPLICABLE = [dict(property_id=p, reason="check not yet built in this revision of /verif (planned, see DESIGN.md §3)") for p in ALL if p not in CHECKS]
